@@ -16,20 +16,20 @@ from vlib.runner import HarnessError, ShardResult, Violation
 ID = "C10"
 LEVEL = "exploration"
 RULE = ("a case is a history over one service id on strictly consecutive connections, drawn from {connect, config(c1|c2), "
-        "upload(e1|e2), search(t_w), message with a foreign sid, message of unknown type, close, server restart}; c1/c2 are valid "
+        "upload(e1|e2), search(t_w), message with a foreign sid, message of unknown type, close, reconnect, reconnect inside the server's cleanup pause (the pause is a gate owned by the driver), server restart}; c1/c2 are valid "
         "configurations differing in identifier size, e1/e2 index two databases that share keywords but not postings, so answering "
         "from the wrong config or index changes results. Executed over real loopback websockets against the real handler; the "
         "observable trace (init-echo state, ok / refused, result payloads) must equal the trace of a 3-state reference model "
         "(refusal = {ok: False} reply or closure of the connection). Hypothesis draws histories up to 12 (quick) / 25 (thorough) "
         "events; all histories of depth <= 4 (quick) / <= 5 (thorough) over {config1, config2, upload1, upload2, search, "
-        "reconnect} are enumerated. Non-trivial = at least one refused request and one reconnect after an accepted transition; "
+        "reconnect, reconnect_early} are enumerated. Non-trivial = at least one refused request and one reconnect after an accepted transition; "
         "distinct = distinct (scheme, history).")
 ASSUMPTIONS = ["control messages ('wait for the previous connection') are informational and skipped when matching the trace",
-               "the server's cleanup pause is a zero-delay shim; connections are strictly consecutive (overlap is C12's subject)",
+               "the server's cleanup pause is a gate released by the driver: after every closure (normal reconnect) or only after the next init echo (early reconnect); connections are strictly consecutive (overlap is C12's subject)",
                "a promised outcome (reply or closure) that does not arrive within 15 s is reported as a harness error, not a violation"]
 
 SCHEMES = ["CJJ14.PiPack", "CJJ14.PiPtr", "DP17.Pi", "CJJ14.PiBas"]
-ALPHABET = ["config1", "config2", "upload1", "upload2", "search", "reconnect"]
+ALPHABET = ["config1", "config2", "upload1", "upload2", "search", "reconnect", "reconnect_early"]
 
 
 def fixtures(scheme, seed):
@@ -86,6 +86,9 @@ class Driver:
         self.reconnects_after_accept = 0
         self.accepted_since_connect = False
         self.ever_accepted = False
+        self.gate = None          # the server's cleanup pause, released by the driver (set by run_history)
+        self.unsettled = 0        # closed connections whose cleanup pause has not been released yet
+        self.early_reconnects = 0
 
     def fail(self, msg, bucket):
         raise Violation("%s: %s | history so far: %r" % (self.scheme, msg, self.trace), "%s:%s" % (self.scheme, bucket))
@@ -99,10 +102,34 @@ class Driver:
                 raise HarnessError("promised outcome did not arrive within 15 s (history %r)" % (self.trace,))
             return m
 
-    async def ensure_connected(self):
+    async def settle(self):
+        """let the cleanup pause of every closed connection elapse (the pause is a gate owned by this driver)"""
+        while self.unsettled > 0:
+            for _ in range(600):
+                if self.gate.pending:
+                    break
+                await asyncio.sleep(0.005)
+            if not self.gate.release_one():
+                self.unsettled = 0  # nothing parked: that connection never reached the cleanup (e.g. refused before registration)
+                break
+            self.unsettled -= 1
+            await asyncio.sleep(0)
+
+    def note_closed(self):
+        if self.rc is not None:
+            self.unsettled += 1
+        self.rc = None
+
+    async def ensure_connected(self, early=False):
         from vlib import rig
         if self.rc is not None and self.rc.ws is not None and not self.rc.ws.closed:
             return
+        if self.rc is not None:
+            self.note_closed()
+        if not early:
+            await self.settle()
+        elif self.unsettled:
+            self.early_reconnects += 1
         if self.ever_accepted:
             self.reconnects_after_accept += 1
         self.rc = await rig.RawClient(self.srv.uri, self.sid).connect()
@@ -114,8 +141,10 @@ class Driver:
             self.fail("first message on a new connection is %r, expected an ok init echo" % ({k: m.get(k) for k in ("type", "decoded")},),
                       "bad_init_echo")
         if m["decoded"].get("state") != self.state:
-            self.fail("init echo reports state %r, the accepted requests so far imply state %d" % (m["decoded"].get("state"), self.state),
-                      "init_state_mismatch")
+            self.fail("init echo reports state %r, the accepted requests so far imply state %d%s" % (
+                m["decoded"].get("state"), self.state, " (reconnect within the server's cleanup pause)" if early and self.unsettled else ""),
+                "init_state_mismatch")
+        await self.settle()  # now the pause elapses; a connection that was told to wait becomes active
 
     async def drain_and_close(self):
         if self.rc is None:
@@ -134,13 +163,13 @@ class Driver:
             if extra:
                 self.fail("unexpected extra message(s) on the connection: %r" % [(m.get("type"), m.get("decoded")) for m in extra],
                           "unexpected_message")
-        self.rc = None
+        self.note_closed()
 
     async def expect_refusal(self, what, reply_type):
         m = await self.next_msg()
         self.refused += 1
         if m["type"] == "__closed__":
-            self.rc = None
+            self.note_closed()
             return
         if m["type"] == reply_type and isinstance(m.get("decoded"), dict) and m["decoded"].get("ok") is False:
             return
@@ -159,11 +188,17 @@ class Driver:
             await self.drain_and_close()
             await self.ensure_connected()
             return
+        if kind == "reconnect_early":
+            # the new connection arrives while the server is still inside the cleanup pause of the previous one
+            await self.drain_and_close()
+            await self.ensure_connected(early=True)
+            return
         if kind == "close":
             await self.drain_and_close()
             return
         if kind == "restart":
             await self.drain_and_close()
+            await self.settle()
             await self.srv.restart()
             await self.ensure_connected()
             return
@@ -223,7 +258,7 @@ class Driver:
             # whether the server ignores it or drops the connection, the state must not change; synchronise on closure if it comes
             m = await self.rc.recv(timeout=1.0)
             if m["type"] == "__closed__":
-                self.rc = None
+                self.note_closed()
             elif m["type"] not in ("__timeout__", "control"):
                 self.fail("a message of unknown type %r was answered with %r" % (ev[1], (m.get("type"), m.get("decoded"))), "unknown_type_answered")
         else:
@@ -236,8 +271,12 @@ async def run_history(case):
     rig.wipe()
     fx = fixtures(case["scheme"], case.get("seed", 1))
     sid = hashlib.sha256(("c10/%s/%s" % (case["scheme"], case.get("seed", 1))).encode()).hexdigest()
+    from vlib import sched
+    gate = sched.Gate()
+    rig.set_sleep(gate.sleep)
     srv = await rig.Server().start()
     drv = Driver(case["scheme"], fx, sid, srv)
+    drv.gate = gate
     try:
         for ev in case["history"]:
             await drv.step(list(ev))
@@ -246,6 +285,7 @@ async def run_history(case):
         if drv.state == 2:
             await drv.step(["search", "beta"])
         await drv.drain_and_close()
+        await drv.settle()
         # the accepted artefacts are still what is stored
         ns = rig.modules()
         if drv.state >= 1:
@@ -259,7 +299,20 @@ async def run_history(case):
         with contextlib.suppress(Exception):
             if drv.rc is not None:
                 await drv.rc.close()
-        await srv.stop()
+        stopping = {"done": False}
+
+        async def auto_release():
+            while not stopping["done"]:
+                gate.release_one()
+                await asyncio.sleep(0.005)
+        rel = asyncio.ensure_future(auto_release())
+        try:
+            await asyncio.wait_for(srv.stop(), 30)
+        finally:
+            stopping["done"] = True
+            with contextlib.suppress(BaseException):
+                await rel
+            rig.set_sleep(rig._fast_sleep)
 
 
 def run_case(case):
@@ -290,7 +343,7 @@ def st_case(draw, max_len):
         st.tuples(st.just("search"), st.sampled_from(["alpha", "beta", "gamma", "absent"])).map(list),
         st.tuples(st.just("foreign"), st.sampled_from(["config", "upload_edb", "token"])).map(list),
         st.tuples(st.just("unknown"), st.sampled_from(["delete", "init", "result", "control", ""])).map(list),
-        st.sampled_from([["reconnect"], ["reconnect"], ["close"], ["restart"]]))
+        st.sampled_from([["reconnect"], ["reconnect"], ["reconnect_early"], ["reconnect_early"], ["close"], ["restart"]]))
     return {"scheme": draw(st.sampled_from(SCHEMES)), "history": draw(st.lists(ev, min_size=1, max_size=max_len)),
             "seed": draw(st.integers(1, 5))}
 
@@ -303,7 +356,7 @@ def body(case, res):
         kinds = [e[0] for e in case["history"]]
         nt = bool(drv and drv.refused >= 1 and drv.reconnects_after_accept >= 1)
         cl = ["scheme:" + case["scheme"], "final_state:%s" % (drv.state if drv else "?")]
-        for k in ("foreign", "unknown", "restart"):
+        for k in ("foreign", "unknown", "restart", "reconnect_early"):
             if k in kinds:
                 cl.append("has_" + k)
         if drv and drv.refused:
